@@ -46,13 +46,15 @@ class ScriptedEnv(gym.Env):
     metadata = {"render_modes": []}
 
     def __init__(self, script, seed=0, obs_dim=3, action_space=None, log=None,
-                 on_step=None, env_id=0, reward_scale=1.0, spec_id="Scripted-v0"):
+                 on_step=None, env_id=0, reward_scale=1.0, spec_id="Scripted-v0", obs_dtype="float32"):
         assert obs_dim >= 3
         self.script = [(int(l), str(e)) for l, e in script]
         assert all(l >= 1 and e in ("term", "trunc", "both") for l, e in self.script)
         self.script_seed = int(seed)
         self.obs_dim = obs_dim
-        self.observation_space = gym.spaces.Box(-np.inf, np.inf, (obs_dim,), dtype=np.float32)
+        # float64: the payload entries are not representable in float32 (as MuJoCo observations are not)
+        self.obs_dtype = np.dtype(obs_dtype)
+        self.observation_space = gym.spaces.Box(-np.inf, np.inf, (obs_dim,), dtype=self.obs_dtype.type)
         if action_space is None:
             action_space = gym.spaces.Box(-1.0, 1.0, (1,), dtype=np.float32)
         self.action_space = action_space
@@ -68,11 +70,13 @@ class ScriptedEnv(gym.Env):
 
     # -- helpers -----------------------------------------------------------
     def make_obs(self, episode, t):
-        o = np.zeros(self.obs_dim, dtype=np.float32)
+        o = np.zeros(self.obs_dim, dtype=self.obs_dtype)
         o[0] = episode
         o[1] = t
         for k in range(2, self.obs_dim):
             o[k] = _payload(self.script_seed + 31 * self.env_id, episode, t, k)
+            if self.obs_dtype == np.float64:
+                o[k] = (o[k] + 0.5) / 3.0
         return o
 
     def make_reward(self, episode, t):
